@@ -146,6 +146,10 @@ func execCacheOp(c CacheLike, in CIn, l *ledger, parkInFn func()) COut {
 		if l != nil && l.tick != nil {
 			// one tick is handed to the real janitor loop (unbuffered channel: it is taken only when the
 			// janitor sits in its select); then wait until the pass it triggers is over
+			// (a janitor that arms a fresh timer per round registers a new entry each time: fire the latest)
+			if tk := vtime.VCaptured(); len(tk) > 0 {
+				l.tick = tk[len(tk)-1]
+			}
 			if !l.tick.Fire(20 * time.Second) {
 				out.N = -7 // the janitor did not take the tick
 			} else if !waitJanitorsIdle() {
